@@ -37,7 +37,26 @@ impl Binder {
             Some(offset) => self.bind_expr(offset.value)?,
             None => self.egraph.add(Node::zero()),
         };
+        // the planner and the executors need the numbers themselves
+        for id in [limit, offset] {
+            if !self.is_constant_expr(id) {
+                return Err(ErrorKind::Todo("non-constant LIMIT / OFFSET".into()).into());
+            }
+        }
         Ok(self.egraph.add(Node::Limit([limit, offset, child])))
+    }
+
+    /// Returns true if the expression `id` depends on no column, aggregation or subquery.
+    fn is_constant_expr(&self, id: Id) -> bool {
+        let expr = self.node(id);
+        !matches!(
+            expr,
+            Node::Column(_) | Node::Ref(_) | Node::Max1Row(_) | Node::In(_) | Node::Exists(_)
+        ) && self.aggs(id).is_empty()
+            && expr
+                .children()
+                .iter()
+                .all(|child| self.is_constant_expr(*child))
     }
 
     /// Binds a CTE definition: `alias AS query`.
